@@ -1,6 +1,7 @@
 /-
 `move_element_here[_at]` inside one model (`opMove`), part 1: the normal form of the function (`opMove_cases`), the tree stays
-well-formed (`opMove_wf`), the error frame (`opMove_err_frame`, `NameFail`), the position-change branch.
+well-formed (`opMove_wf`), the error frame (`opMove_err_frame`: unconditional since the repair of
+c11:move-fails-without-item-name; `NameFail` is kept for the statements that name it).
 Part 2 (the real move of an identifiable element: index, reverse reference map, C06, witness) is `MoveOpC06.lean`.
 -/
 import AutosarVerif.Lemmas.StepX
@@ -83,12 +84,10 @@ theorem opMove_cases (w : World) (p x : Nat) (pos? : Option Nat) :
       opMove S V w p x pos? = (setModel w k (posModel (w.models[k]!) p cur q), .ok "")) ∨
     (∃ k cx cp ver lo hi sph spk, MoveRun S V w p x pos? k cx cp ver lo hi sph spk ∧ sph.id ≠ p ∧
       (cp.any fun (h, _) => h.id = x) = false ∧
-      (((mvName S (w.models[k]!).index (pathOfChain S cp) (lastOf cx).1 (lastOf cx).2).2.2 = true ∧
-        opMove S V w p x pos? = (setModel w k ((w.models[k]!).setRoot (mvRoot1 (w.models[k]!) sph spk x)), .err)) ∨
-       ((mvName S (w.models[k]!).index (pathOfChain S cp) (lastOf cx).1 (lastOf cx).2).2.2 = false ∧
-        opMove S V w p x pos? = (setModel w k (moveModel S (w.models[k]!) sph spk x p (pos?.getD hi) (lastOf cx).1 (lastOf cx).2
-          (pathOfChain S cx) (pathOfChain S cp)
-          (subtreePaths S ((lastOf cx).2.size + 2) (lastOf cx).1 (lastOf cx).2 (namesOfChain S cx.dropLast))), .ok "")))) := by
+      (mvName S (w.models[k]!).index (pathOfChain S cp) (lastOf cx).1 (lastOf cx).2).2.2 = false ∧
+      opMove S V w p x pos? = (setModel w k (moveModel S (w.models[k]!) sph spk x p (pos?.getD hi) (lastOf cx).1 (lastOf cx).2
+        (pathOfChain S cx) (pathOfChain S cp)
+        (subtreePaths S ((lastOf cx).2.size + 2) (lastOf cx).1 (lastOf cx).2 (namesOfChain S cx.dropLast))), .ok "")) := by
   fun_cases opMove S V w p x pos?
   all_goals try exact Or.inl rfl
   case case8 =>
@@ -102,19 +101,6 @@ theorem opMove_cases (w : World) (p x : Nat) (pos? : Option Nat) :
     refine Or.inr (Or.inl ⟨kx, cx, cp, vx, lo, hi, sph, spk, q, cur,
       ⟨hne, hlx, hlp, hvx, hvp, by rw [e1, e2, e3]; exact hr, Decidable.not_not.mp hpos, hpar⟩, hsp, rfl, by rw [e1]; exact hq,
       by rw [e1]; exact hcur, rfl⟩)
-  case case12 =>
-    rename_i hne kx cx kp cp hlp hlx m mx vx ver hvp hvx hv ph pk hlastp xh xk hlastx lo hi hr hk sph spk hpar hsp hany
-      destPrefix root1 xk1 destPath hname pos hpos
-    obtain rfl : kx = kp := Decidable.not_not.mp hk
-    obtain rfl : vx = ver := Decidable.not_not.mp hv
-    have e1 : (lastOf cp).2 = pk := by rw [hlastp]
-    have e2 : (lastOf cp).1 = ph := by rw [hlastp]
-    have e3 : (lastOf cx).1 = xh := by rw [hlastx]
-    have e4 : (lastOf cx).2 = xk := by rw [hlastx]
-    have h1 : mvName S (w.models[kx]!).index (pathOfChain S cp) xh xk = (xk1, destPath, true) := hname
-    refine Or.inr (Or.inr ⟨kx, cx, cp, vx, lo, hi, sph, spk,
-      ⟨hne, hlx, hlp, hvx, hvp, by rw [e1, e2, e3]; exact hr, Decidable.not_not.mp hpos, hpar⟩, hsp, by simpa using hany,
-      Or.inl ⟨by rw [e3, e4, h1], rfl⟩⟩)
   case case13 =>
     rename_i hne kx cx kp cp hlp hlx m mx vx ver hvp hvx hv ph pk hlastp xh xk hlastx lo hi hr hk sph spk hpar hsp hany
       srcPrefix destPrefix origPaths root1 xh1 xk1 destPath nameFail hname hnf idx1 rs' root3 pos hpos root2 hloop
@@ -130,7 +116,7 @@ theorem opMove_cases (w : World) (p x : Nat) (pos? : Option Nat) :
         ((w.models[kx]!).refs, mvRoot2 (w.models[kx]!) sph spk x p (pos?.getD hi) xh xk1) = (rs', root3) := hloop
     refine Or.inr (Or.inr ⟨kx, cx, cp, vx, lo, hi, sph, spk,
       ⟨hne, hlx, hlp, hvx, hvp, by rw [e1, e2, e3]; exact hr, Decidable.not_not.mp hpos, hpar⟩, hsp, by simpa using hany,
-      Or.inr ⟨by rw [e3, e4, h1, hnf'], ?_⟩⟩)
+      by rw [e3, e4, h1, hnf'], ?_⟩)
     unfold moveModel
     rw [e3, e4, h1, h2]
     rfl
@@ -267,18 +253,14 @@ theorem mvRoot1_rootWf (m : Model) (sph : Hdr) (spk : Items) (x : Nat) (hm : m.w
 theorem setRoot_rootItems_of_hasRoot (m : Model) (H : Hdr) (its : Items) (h : HasRoot H its) : (m.setRoot its).rootItems = its :=
   (setRoot_hasRoot m H its h).1
 
-/-- 2. `move_element_here` keeps the parent fields in step with the structure — in every branch, also when it fails after the
-element was unlinked -/
+/-- 2. `move_element_here` keeps the parent fields in step with the structure — in every branch -/
 theorem opMove_wf (w : World) (p x : Nat) (pos? : Option Nat) (hw : w.wf) : (opMove S V w p x pos?).1.wf := by
   rcases opMove_cases S V w p x pos? with h | ⟨k, cx, cp, ver, lo, hi, sph, spk, q, cur, hr, hsp, hq, hlen, hcur, he⟩ |
-    ⟨k, cx, cp, ver, lo, hi, sph, spk, hr, hsp, hany, ⟨hf, he⟩ | ⟨hf, he⟩⟩
+    ⟨k, cx, cp, ver, lo, hi, sph, spk, hr, hsp, hany, hf, he⟩
   · rw [h]; exact hw
   · rw [he]
     apply wf_setModel' w k _ hw
     exact wfM_modify _ _ _ (fun h kk _ => ⟨rfl, rfl, fun hk => movePos_wf kk cur q _ hk⟩) (wfM_getElem! w k hw)
-  · rw [he]
-    apply wf_setModel' w k _ hw
-    exact setRoot_wfM _ _ (wfM_getElem! w k hw) (mvRoot1_rootWf _ sph spk x (wfM_getElem! w k hw))
   · rw [he]
     apply wf_setModel' w k _ hw
     obtain ⟨m, _, hm2, hmem, hc⟩ := locate_chain w x k cx hr.locx
@@ -299,8 +281,9 @@ theorem opMove_wf (w : World) (p x : Nat) (pos? : Option Nat) (hw : w.wf) : (opM
 
 /-! ### 5. the error frame -/
 
-/-- the one partial failure of `move_element_here`: the element to move is identifiable by type (its type is named and its
-first content item is called SHORT-NAME) but has no item name; the Rust code notices after it has unlinked the element -/
+/-- the former partial failure of `move_element_here` (finding c11:move-fails-without-item-name, repaired): the element to
+move is identifiable by type (its type is named and its first content item is called SHORT-NAME) but has no item name; the Rust
+code used to notice after it had unlinked the element, now it refuses before anything changes (`opMove_err_frame`) -/
 def NameFail (w : World) (p x : Nat) : Prop :=
   ∃ k cx cp, locate w x = some (k, cx) ∧ locate w p = some (k, cp) ∧
     isIdentifiable S (lastOf cx).1 (lastOf cx).2 = true ∧ itemName S (lastOf cx).1 (lastOf cx).2 = none
@@ -312,17 +295,16 @@ theorem mvName_fail (idx : List (Bytes × Nat)) (destPrefix : Bytes) (xh : Hdr) 
   · rw [h1, h0, h2]; simp
   · rw [h1, h0, h2]; simp
 
-/-- an error answer: nothing has changed, or it is the known partial failure -/
+/-- an error answer: nothing has changed (unconditionally, since the repair of c11:move-fails-without-item-name) -/
 theorem opMove_err_frame (w : World) (p x : Nat) (pos? : Option Nat) (h : (opMove S V w p x pos?).2 = .err) :
-    (opMove S V w p x pos?).1 = w ∨ NameFail S w p x := by
+    (opMove S V w p x pos?).1 = w := by
   rcases opMove_cases S V w p x pos? with h0 | ⟨k, cx, cp, ver, lo, hi, sph, spk, q, cur, hr, hsp, hq, hlen, hcur, he⟩ |
-    ⟨k, cx, cp, ver, lo, hi, sph, spk, hr, hsp, hany, ⟨hf, he⟩ | ⟨hf, he⟩⟩
-  · exact Or.inl h0
+    ⟨k, cx, cp, ver, lo, hi, sph, spk, hr, hsp, hany, hf, he⟩
+  · exact h0
   · rw [he] at h; cases h
-  · exact Or.inr ⟨k, cx, cp, hr.locx, hr.locp, (mvName_fail S _ _ _ _).mp hf⟩
   · rw [he] at h; cases h
 
-/-- under the index invariant (SHORT-NAME discipline) the partial failure does not occur: a first content item called
+/-- under the index invariant (SHORT-NAME discipline) the situation `NameFail` does not occur: a first content item called
 SHORT-NAME of an element of a named type is a proper SHORT-NAME (`create_named_sub_element` creates it together with the
 element), so an element that is identifiable by type has an item name -/
 theorem nameFail_impossible (vOk : Nat) (w : World) (hw : WInv S vOk w) (p x : Nat) : ¬ NameFail S w p x := by
@@ -332,20 +314,19 @@ theorem nameFail_impossible (vOk : Nat) (w : World) (hw : WInv S vOk w) (p x : N
   obtain ⟨n, hn'⟩ := itemName_of_identifiable S _ _ (kidsOk_of_occ S _ (hw m hmem).sn _ _ ho).1 hi
   rw [hn] at hn'; cases hn'
 
-/-- in a world with the index invariant a refused `move_element_here` changes nothing -/
+/-- in a world with the index invariant a refused `move_element_here` changes nothing (a corollary of the unconditional
+`opMove_err_frame`; the hypothesis is no longer needed) -/
 theorem opMove_err_frame_winv (vOk : Nat) (w : World) (hw : WInv S vOk w) (p x : Nat) (pos? : Option Nat)
-    (h : (opMove S V w p x pos?).2 = .err) : (opMove S V w p x pos?).1 = w := by
-  rcases opMove_err_frame S V w p x pos? h with h | h
-  · exact h
-  · exact absurd h (nameFail_impossible S vOk w hw p x)
+    (h : (opMove S V w p x pos?).2 = .err) : (opMove S V w p x pos?).1 = w :=
+  have _ := hw
+  opMove_err_frame S V w p x pos? h
 
 /-- a move between models is answered with `unsupported` and changes nothing -/
 theorem opMove_unsupported_frame (w : World) (p x : Nat) (pos? : Option Nat) (h : (opMove S V w p x pos?).2 = .unsupported) :
     (opMove S V w p x pos?).1 = w := by
   rcases opMove_cases S V w p x pos? with h0 | ⟨k, cx, cp, ver, lo, hi, sph, spk, q, cur, hr, hsp, hq, hlen, hcur, he⟩ |
-    ⟨k, cx, cp, ver, lo, hi, sph, spk, hr, hsp, hany, ⟨hf, he⟩ | ⟨hf, he⟩⟩
+    ⟨k, cx, cp, ver, lo, hi, sph, spk, hr, hsp, hany, hf, he⟩
   · exact h0
-  · rw [he] at h; cases h
   · rw [he] at h; cases h
   · rw [he] at h; cases h
 
